@@ -102,6 +102,6 @@ def dmigAuxX (o : RdOpt) : Nat → List (List Val) → Option (List DmigRead)
 /-- `rddmig(f, expanded=…, square=…)` on punch text -/
 def rdDmigX (o : RdOpt) (lines : List Txt) : Option (List DmigRead) :=
   let cards := rdcards (txt "dmig") lines
-  dmigAuxX o (cards.length + 1) cards
+  if cards.isEmpty then none else dmigAuxX o (cards.length + 1) cards
 
 end PyYetiVerif.Bulk
